@@ -794,6 +794,26 @@ def local_paths_refused(ctx: Ctx, rule: str) -> int:
             for c_ in ast.walk(b.ast):
                 if isinstance(c_, ast.Compare) and len(c_.ops) == 1 and isinstance(c_.ops[0], ast.In) and isinstance(c_.comparators[0], ast.Name) and c_.comparators[0].id in locals_params:
                     guard.append(b)
+    if not guard and locals_params:
+        # the set may be held under another name first (`shadowing = set() if local_names is None else local_names`)
+        fl_ = flow_of(prog, res)
+
+        def from_locals(nm: ast.Name, depth: int = 0) -> bool:
+            if nm.id in locals_params:
+                return True
+            if depth > 3:
+                return False
+            try:
+                ds_ = fl_.defs_of_use(nm)
+            except Exception:
+                ds_ = []
+            return bool(ds_) and all(d_.value is not None and getattr(d_, "kind", "assign") == "assign" and any(
+                isinstance(y, ast.Name) and isinstance(y.ctx, ast.Load) and from_locals(y, depth + 1) for y in ast.walk(d_.value)) for d_ in ds_)
+        for b in cfg.nodes:
+            if b.kind == "branch" and b.label == "T" and isinstance(b.ast, (ast.Compare, ast.BoolOp)):
+                for c_ in ast.walk(b.ast):
+                    if isinstance(c_, ast.Compare) and len(c_.ops) == 1 and isinstance(c_.ops[0], ast.In) and isinstance(c_.comparators[0], ast.Name) and from_locals(c_.comparators[0]):
+                        guard.append(b)
     raises = [r for r in res.own_nodes() if isinstance(r, ast.Raise)]
     refused = [r for r in raises if guard and dominated(ctx, res, r, guard) is None]
     if locals_params and refused:
